@@ -351,7 +351,7 @@ def install_lemmas(R):
         return [VC("ready_iff_nothing_missing", "lemmas:ReadyIffNoMissing", hyps, goal, kind="lemma", props=[pid])]
     R.extra_checks.setdefault("C08", []).append(ready_iff_no_missing)
     R.prop_meta["C08"] = dict(
-        bounded_in_quick="random operation histories (sow, re-sow, grow i / subset / missing, grow with a failing function, delete a result, "
+        bounded_in_quick="random operation histories (sow, re-sow, grow i / subset / missing, grow with a function that raises RuntimeError / StopIteration / KeyError / ZeroDivisionError, delete a result, "
                          "check_bad, reload) of length 12 on crops of 1-8 batches: replay/C08.py compares every progress query of the live and "
                          "of a freshly loaded Crop with the files on disk",
         not_decided=["check_bad (file-name decoding by str.strip character sets) has no contract; it is exercised by the bounded replay only",
